@@ -149,10 +149,12 @@ func C01_AllRoutes() {
 	}
 }
 
-// C01_RememberMiddleware: remember.Middleware from an arbitrary state and cookie.
+// C01_RememberMiddleware: remember.Middleware from an arbitrary state and cookie, with up to
+// one storage call failing (a backend error must never stand in for a valid token).
 func C01_RememberMiddleware() {
 	verif.ReplayInInterpreter()
 	f := newFlow(fullOpts())
+	f.injectFaults(&faultPlan{max: 1})
 	cookie, hasCookie := f.preC.Lookup2(authboss.CookieRemember)
 	preUID, preHas := f.preS.Lookup2(authboss.SessionKey)
 	next := http.HandlerFunc(func(wr http.ResponseWriter, r *http.Request) { wr.WriteHeader(200) })
